@@ -355,6 +355,15 @@ def alias_locals(a, l):
     return alias_locals_from(a, {l})
 
 
+def _alias_src(st):
+    rv = st['rv']
+    if rv['k'] == 'use' and rv['op']['k'] in ('copy', 'move') and not rv['op']['place']['p']:
+        return rv['op']['place']['l']
+    if rv['k'] == 'ref' and rv['place']['p'] == ['deref']:
+        return rv['place']['l']
+    return None
+
+
 def alias_locals_from(a, start):
     al = set(start)
     changed = True
@@ -364,14 +373,19 @@ def alias_locals_from(a, start):
             for st in blk['stmts']:
                 if st['k'] != 'assign' or st['place']['p'] or st['place']['l'] in al:
                     continue
-                rv = st['rv']
-                src = None
-                if rv['k'] == 'use' and rv['op']['k'] in ('copy', 'move') and not rv['op']['place']['p']:
-                    src = rv['op']['place']['l']
-                elif rv['k'] == 'ref' and rv['place']['p'] == ['deref']:
-                    src = rv['place']['l']
-                if src in al and len(a.defs.get(st['place']['l'], [])) == 1:
-                    al.add(st['place']['l'])
+                src = _alias_src(st)
+                if src not in al:
+                    continue
+                x = st['place']['l']
+                ds = a.defs.get(x, [])
+                # one definition, or several that are all the same kind of copy of an alias (a statement duplicated into
+                # several paths by the normaliser's jump threading)
+                ok = len(ds) == 1
+                if not ok and ds:
+                    ok = all(isinstance(dd, tuple) and a.stmt_at(dd).get('k') == 'assign' and not a.stmt_at(dd)['place']['p']
+                             and _alias_src(a.stmt_at(dd)) in al for dd in ds)
+                if ok:
+                    al.add(x)
                     changed = True
     return al
 
@@ -390,9 +404,13 @@ def closure_carriers(a, al):
                 if st['k'] != 'assign' or st['place']['p']:
                     continue
                 x, rv = st['place']['l'], st['rv']
-                if rv['k'] == 'aggregate' and rv.get('agg') == 'closure' and x not in car and len(a.defs.get(x, [])) == 1:
+                if rv['k'] == 'aggregate' and rv.get('agg') == 'closure' and x not in car:
                     pos = {i for i, f in enumerate(rv['fields']) if f.get('k') in ('copy', 'move') and not f['place']['p'] and f['place']['l'] in al}
-                    if pos:
+                    ds = a.defs.get(x, [])
+                    same = len(ds) == 1 or all(
+                        isinstance(dd, tuple) and a.stmt_at(dd).get('k') == 'assign' and a.stmt_at(dd)['rv'].get('k') == 'aggregate'
+                        and a.stmt_at(dd)['rv'].get('closure') == rv.get('closure') for dd in ds)
+                    if pos and same:
                         car[x] = pos
                         changed = True
                 elif rv['k'] == 'use' and rv['op']['k'] in ('copy', 'move'):
